@@ -813,8 +813,12 @@ impl<T: Transport, Env: UtpEnvironment> VirtualSocket<T, Env> {
             return Ok(());
         }
 
+        // Once our FIN has been numbered (right after the last segment) the sequence space is closed:
+        // an MTU probe can no longer be given up and re-cut into more segments, the second part
+        // would take the FIN's sequence number. It is retransmitted like any other segment.
         match self.user_tx_segments.pop_expired_mtu_probe(
-            self.timers.retransmit.expired(self.this_poll.now),
+            self.timers.retransmit.expired(self.this_poll.now)
+                && !self.state.is_local_fin_or_later(),
             self.socket_opts.mtu_probe_max_retransmissions,
         ) {
             PopExpiredProbe::Expired {
